@@ -20,6 +20,7 @@ import (
 	"github.com/coreos/go-semver/semver"
 	"github.com/tikv/pd/pkg/typeutil"
 	"github.com/tikv/pd/server/config"
+	"github.com/tikv/pd/server/core"
 	"github.com/tikv/pd/server/schedule/placement"
 
 	_ "verifharness/internal/quiet"
@@ -370,7 +371,9 @@ func (w *world) dump() string {
 	}
 	fresh := config.NewPersistOptions(cfg)
 	reloaded := "reload-error"
-	if err := fresh.Reload(svr.GetStorage()); err == nil {
+	// a newly elected leader has its own core.Storage over the same kv: never read back through the object
+	// the setters write with (whatever it caches or remembers must not take part in the observation)
+	if err := fresh.Reload(core.NewStorage(w.fkv.Base)); err == nil {
 		reloaded = w.optStr(fresh)
 	}
 	var ws []string
@@ -565,7 +568,7 @@ func (w *world) exec(op string) (res string) {
 	return bad
 }
 
-func (w *world) run(t *trace.W, op string) {
+func (w *world) run(t *trace.W, op string) string {
 	if w.srv != nil {
 		w.srv.MustLead(true)
 	}
@@ -575,9 +578,10 @@ func (w *world) run(t *trace.W, op string) {
 	}
 	if res == "bad-op" || w.srv == nil {
 		t.Line(op, res)
-		return
+		return res
 	}
 	t.Line(op, res+" ; "+w.dump())
+	return res
 }
 
 func main() {
